@@ -251,6 +251,13 @@ func (a *Analysis) step(st *State, fr *frame, in ssa.Instruction) {
 	case *ssa.Field:
 		xe := a.exprOf(st, fr, x.X)
 		fld := x.X.Type().Underlying().(*types.Struct).Field(x.Field)
+		if xe.Op == "ld" && len(xe.Args) == 1 && xe.Args[0].Op == "global" {
+			// field of a copy of a package-level struct of constants
+			if v, ok := a.P.constStructField(strings.TrimSuffix(xe.Args[0].S, "#"), fld.Name(), x.Type()); ok {
+				a.bind(st, fr, x, mkConst(v, x.Type()))
+				break
+			}
+		}
 		a.bind(st, fr, x, mkField(xe, fld.Name(), x.Field, x.Type()))
 	case *ssa.FieldAddr:
 		xe := a.exprOf(st, fr, x.X)
@@ -267,6 +274,13 @@ func (a *Analysis) step(st *State, fr *frame, in ssa.Instruction) {
 						break
 					}
 				}
+			}
+		}
+		if xe.Op == "arrval" {
+			// an array value rebuilt from its element cells, constant index
+			if i, isC := st.rangeOf(ie).IsConst(); isC && i >= 0 && i < int64(len(xe.Args)) {
+				a.bind(st, fr, x, xe.Args[i])
+				break
 			}
 		}
 		a.bind(st, fr, x, mkAt(xe, ie, x.Type()))
@@ -1734,6 +1748,38 @@ func (a *Analysis) transferBlock(b *ssa.BasicBlock, st0 *State, emit func(to *ss
 		case *ssa.Panic:
 			return
 		}
+		if rd, ok := in.(*ssa.RunDefers); ok {
+			// deferred closures that run at every exit (deferred in the entry
+			// block) are analysed here, last deferred first, with their
+			// captured cells bound: `defer func() { if err != nil { … } }()`
+			if ds, entryOnly := entryDefers(rd.Parent()); entryOnly && a.anyDeferInlinable(ds) {
+				cur := states
+				for i := len(ds) - 1; i >= 0; i-- {
+					d := ds[i]
+					callee := a.deferInlinable(d)
+					var nx []*State
+					for _, st := range cur {
+						st.event("deferred:" + a.P.calleeDesc(d))
+						if callee != nil {
+							if outs, ok := a.inlineMulti(st, d, callee); ok {
+								nx = append(nx, outs...)
+								continue
+							}
+						}
+						a.callEffects(st, nil, d, true)
+						if !st.dead {
+							nx = append(nx, st)
+						}
+					}
+					cur = nx
+				}
+				states = cur
+				if len(states) == 0 {
+					return
+				}
+				continue
+			}
+		}
 		var next []*State
 		for _, st := range states {
 			if c, ok := in.(*ssa.Call); ok {
@@ -1777,6 +1823,89 @@ func (a *Analysis) transferBlock(b *ssa.BasicBlock, st0 *State, emit func(to *ss
 			states = []*State{m}
 		}
 	}
+}
+
+// entryDefers lists fn's defer statements; entryOnly when all of them are in
+// the entry block, i.e. every one has run whenever an exit is reached.
+func entryDefers(fn *ssa.Function) (ds []*ssa.Defer, entryOnly bool) {
+	entryOnly = true
+	for _, b := range fn.Blocks {
+		for _, in := range b.Instrs {
+			if d, ok := in.(*ssa.Defer); ok {
+				ds = append(ds, d)
+				if b.Index != 0 {
+					entryOnly = false
+				}
+			}
+		}
+	}
+	return ds, entryOnly
+}
+
+// deferClosure: the closure a `defer func() { … }()` statement runs, when its
+// shape can be analysed in place (no goroutines, nested defers or closures,
+// no recover).
+func deferClosure(d *ssa.Defer) *ssa.Function {
+	mc, ok := d.Call.Value.(*ssa.MakeClosure)
+	if !ok || len(d.Call.Args) != 0 {
+		return nil
+	}
+	callee, _ := mc.Fn.(*ssa.Function)
+	if callee == nil || len(callee.Blocks) == 0 || len(callee.Blocks) > 30 || len(callee.Params) != 0 {
+		return nil
+	}
+	ok = true
+	ownInstrs(callee, func(in ssa.Instruction) {
+		switch x := in.(type) {
+		case *ssa.Go, *ssa.Defer, *ssa.RunDefers, *ssa.MakeClosure:
+			ok = false
+		case *ssa.Call:
+			if b, isB := x.Call.Value.(*ssa.Builtin); isB && b.Name() == "recover" {
+				ok = false
+			}
+		}
+	})
+	if !ok {
+		return nil
+	}
+	return callee
+}
+
+// defersTransparent: every defer of fn is an entry-block closure of analysable
+// shape (and there is at least one).
+func defersTransparent(fn *ssa.Function) bool {
+	ds, entryOnly := entryDefers(fn)
+	if !entryOnly || len(ds) == 0 {
+		return false
+	}
+	for _, d := range ds {
+		if deferClosure(d) == nil {
+			return false
+		}
+	}
+	return true
+}
+
+func (a *Analysis) deferInlinable(d *ssa.Defer) *ssa.Function {
+	callee := deferClosure(d)
+	if callee == nil || len(a.stack) >= maxHelperDepth+1 {
+		return nil
+	}
+	for _, f := range a.stack {
+		if f == callee {
+			return nil
+		}
+	}
+	return callee
+}
+
+func (a *Analysis) anyDeferInlinable(ds []*ssa.Defer) bool {
+	for _, d := range ds {
+		if a.deferInlinable(d) != nil {
+			return true
+		}
+	}
+	return false
 }
 
 // closureTermInlinable: shape limits for a closure analysed where a helper
@@ -1843,10 +1972,15 @@ func (a *Analysis) shouldInlineMulti(c *ssa.Call, callee *ssa.Function) bool {
 		// known functions analysed in context by policy: same shape limits
 		static = len(callee.Blocks) > 0 && len(callee.Blocks) <= 60 && callee.TypeParams().Len() == 0
 		if static {
+			transparent := defersTransparent(callee)
 			allInstrs(callee, func(in ssa.Instruction) {
 				switch in.(type) {
-				case *ssa.Go, *ssa.Defer, *ssa.RunDefers:
+				case *ssa.Go:
 					static = false
+				case *ssa.Defer, *ssa.RunDefers:
+					if !transparent || in.Parent() != callee {
+						static = false
+					}
 				}
 			})
 		}
@@ -1874,7 +2008,7 @@ func (a *Analysis) shouldInlineMulti(c *ssa.Call, callee *ssa.Function) bool {
 // inlineMulti analyses callee from the caller's state with its parameters
 // bound to the argument terms and returns one caller state per reachable
 // return (the call's value bound to the returned terms).
-func (a *Analysis) inlineMulti(st *State, c *ssa.Call, callee *ssa.Function) ([]*State, bool) {
+func (a *Analysis) inlineMulti(st *State, c ssa.CallInstruction, callee *ssa.Function) ([]*State, bool) {
 	args := a.argExprs(st, nil, c.Common())
 	if len(args) != len(callee.Params) {
 		return nil, false
@@ -1883,11 +2017,22 @@ func (a *Analysis) inlineMulti(st *State, c *ssa.Call, callee *ssa.Function) ([]
 	if a.baseFrame != nil {
 		pre = a.baseFrame.prefix
 	}
-	nf := &frame{fn: callee, prefix: fmt.Sprintf("%sm%s.", pre, c.Name()), params: map[ssa.Value]*Expr{}}
+	cname := ""
+	if v := c.Value(); v != nil {
+		cname = v.Name()
+	} else {
+		// a deferred call: named by its position
+		for i, in := range c.Block().Instrs {
+			if in == ssa.Instruction(c) {
+				cname = fmt.Sprintf("d%d_%d", c.Block().Index, i)
+			}
+		}
+	}
+	nf := &frame{fn: callee, prefix: fmt.Sprintf("%sm%s.", pre, cname), params: map[ssa.Value]*Expr{}}
 	for i, p := range callee.Params {
 		nf.params[p] = args[i]
 	}
-	if mc, ok := c.Call.Value.(*ssa.MakeClosure); ok {
+	if mc, ok := c.Common().Value.(*ssa.MakeClosure); ok {
 		for i, fv := range callee.FreeVars {
 			if i < len(mc.Bindings) {
 				nf.params[fv] = a.exprOf(st, nil, mc.Bindings[i])
@@ -1945,12 +2090,14 @@ func (a *Analysis) inlineMulti(st *State, c *ssa.Call, callee *ssa.Function) ([]
 		if len(sub.Returns) > 1 && len(o.tags) < 6 {
 			o.tags[nf.prefix] = returnOrdinal(callee, r.Instr)
 		}
-		switch len(r.Results) {
-		case 0:
-		case 1:
-			o.env[c] = r.Results[0]
-		default:
-			o.env[c] = mk("tuple", c.Type(), "", 0, r.Results...)
+		if cv := c.Value(); cv != nil {
+			switch len(r.Results) {
+			case 0:
+			case 1:
+				o.env[cv] = r.Results[0]
+			default:
+				o.env[cv] = mk("tuple", cv.Type(), "", 0, r.Results...)
+			}
 		}
 		outs = append(outs, o)
 	}
